@@ -100,17 +100,13 @@ theorem range_index (E : Env) (v : Val) (len : Nat) (hv : WFv v) (hlen : len < 2
     repeat' (first | omega | split)
 
 /-- valueToRangeIndex with negativeIsZero = true is min(max(ToInteger(v), 0), len) -/
-def clampPos (r : Spec.IntInf) (len : Nat) : Nat :=
-  match r with
-  | .ninf => 0
-  | .pinf => len
-  | .fin i => if i < 0 then 0 else if i < len then i.toNat else len
+def clampPos (r : Spec.IntInf) (len : Nat) : Nat := Spec.clamp0 r len
 
 theorem range_index_nz (E : Env) (v : Val) (len : Nat) (hv : WFv v) (hlen : len < 2^62) :
     valueToRangeIndex E v len true = (clampPos (Spec.toInteger E v) len : Nat) := by
   simp only [valueToRangeIndex, toI64_sat E v hv]
   cases Spec.toInteger E v <;>
-    simp only [sat, rangeIndex, clampPos, maxInt64, minInt64, ↓reduceIte] <;>
+    simp only [sat, rangeIndex, clampPos, Spec.clamp0, maxInt64, minInt64, ↓reduceIte] <;>
     repeat' (first | omega | split)
 
 
@@ -900,6 +896,297 @@ theorem wf_specArrayDefine (E : Env) (k : Key) (d : Desc) (t : Bool) (o : Obj) (
     WFArr (stateOf (Spec.arrayDefineOwn E k d t o)) := by
   rw [← arrayDefineOwnProperty_refines E k d t o hwf hk hng hreg]
   exact wf_arrayDefine E o k d t hwf
+
+
+/-! ## join -/
+
+theorem foldl_join_prefix (sep p b : List Nat) (l : List (List Nat)) :
+    l.foldl (fun r x => (r ++ sep) ++ x) (p ++ b) = p ++ l.foldl (fun r x => (r ++ sep) ++ x) b := by
+  induction l generalizing b with
+  | nil => rfl
+  | cons x xs ih =>
+    simp only [List.foldl_cons]
+    have : (p ++ b ++ sep) ++ x = p ++ ((b ++ sep) ++ x) := by simp [List.append_assoc]
+    rw [this, ih]
+
+/-- strings.Join is the left fold of §15.4.4.5 steps 7–10 -/
+theorem goJoin_foldl (a : List Nat) (l : List (List Nat)) (sep : List Nat) :
+    goJoin (a :: l) sep = l.foldl (fun r x => (r ++ sep) ++ x) a := by
+  induction l generalizing a with
+  | nil => rfl
+  | cons b l ih =>
+    simp only [goJoin, List.foldl_cons]
+    rw [ih b]
+    have := foldl_join_prefix sep (a ++ sep) b l
+    simp only [List.append_assoc] at this ⊢
+    exact this.symm
+
+theorem join_refines (O : Ops σ) (E : Env) (args : List Val) : join O E args = Spec.join O E args := by
+  funext s
+  simp only [join, Spec.join]
+  have hsep : (if argAt args 0 ≠ Val.undef then E.ts (argAt args 0) else [44])
+      = (if argAt args 0 = Val.undef then [44] else E.ts (argAt args 0)) := by
+    by_cases h : argAt args 0 = .undef <;> simp [h]
+  rw [hsep]
+  by_cases h0 : O.len s = 0
+  · simp [h0]
+  · simp only [h0, if_false]
+    obtain ⟨m, hm⟩ : ∃ m, O.len s = m + 1 := ⟨O.len s - 1, by omega⟩
+    rw [hm]
+    simp only [Nat.add_sub_cancel, List.range_succ_eq_map, List.map_cons, List.map_map, goJoin_foldl, List.foldl_map]
+    rfl
+
+
+/-! ## splice -/
+
+/-- splice with at least two arguments (outside `splice_no_arguments` / `splice_one_argument`) and no hole in the
+    removed range (outside `hole_to_undefined`) is §15.4.4.12, for every receiver and argument list -/
+theorem splice_refines (O : Ops σ) (E : Env) (args : List Val) (s : σ)
+    (hargs : ∀ a ∈ args, WFv a) (hlen : O.len s < 2^62) (hargc : args.length > 1)
+    (hfull : ∀ j, Spec.relIndex (Spec.toInteger E (argAt args 0)) (O.len s) ≤ j →
+        j < Spec.relIndex (Spec.toInteger E (argAt args 0)) (O.len s)
+              + clampPos (Spec.toInteger E (argAt args 1)) (O.len s - Spec.relIndex (Spec.toInteger E (argAt args 0)) (O.len s)) →
+        O.has s j = true) :
+    splice O E args s = Spec.splice O E args s := by
+  have hstart := range_index E (argAt args 0) (O.len s) (argAt_wf args hargs 0) hlen
+  generalize hk : Spec.relIndex (Spec.toInteger E (argAt args 0)) (O.len s) = start at hstart hfull
+  have hstart_le : start ≤ O.len s := by
+    rw [← hk]; simp only [Spec.relIndex]; repeat' (first | omega | split)
+  have hdc := range_index_nz E (argAt args 1) (O.len s - start) (argAt_wf args hargs 1) (by omega)
+  generalize hd : clampPos (Spec.toInteger E (argAt args 1)) (O.len s - start) = dc at hdc hfull
+  have hdc_le : dc ≤ O.len s - start := by
+    rw [← hd]; simp only [clampPos, Spec.clamp0]; repeat' (first | omega | split)
+  have hcast : ((O.len s : Nat) : Int) - (start : Int) = ((O.len s - start : Nat) : Int) := by omega
+  have hspecdc : Spec.clamp0 (Spec.toInteger E (argAt args 1)) (O.len s - start) = dc := hd
+  simp only [splice, Spec.splice, hk, hstart, hargc, if_true, hcast, hdc, Int.toNat_natCast, hspecdc]
+  have hret : (List.range dc).map (fun index => if O.has s (start + index) = true then some (O.get s (start + index)) else some Val.undef)
+      = (List.range dc).map (fun k => if O.has s (start + k) = true then some (O.get s (start + k)) else none) := by
+    apply List.map_congr_left
+    intro j hj
+    have : j < dc := by simpa using hj
+    simp [hfull (start + j) (by omega) (by omega)]
+  rw [hret]
+  have hlenv : (Val.int ((O.len s : Int) + ((args.drop 2).length : Nat) - (dc : Int)))
+      = Val.int (((O.len s - dc + (args.drop 2).length : Nat) : Nat) : Int) := by
+    congr 1; omega
+  rw [hlenv]
+  by_cases h1 : (args.drop 2).length < dc
+  · simp only [h1, if_true]
+    have e1 : O.len s - dc - start = O.len s - dc - start := rfl
+    have e2 : O.len s - dc + (args.drop 2).length = O.len s - dc + (args.drop 2).length := rfl
+    have e3 : O.len s - (O.len s - dc + (args.drop 2).length) = dc - (args.drop 2).length := by omega
+    simp only [e3, putItems_eq]
+    rfl
+  · simp only [h1, if_false]
+    by_cases h2 : (args.drop 2).length > dc
+    · simp only [h2, if_true, putItems_eq]; rfl
+    · simp only [h2, if_false, putItems_eq]
+
+
+/-! ## indexOf / lastIndexOf -/
+
+def startVal : Option Nat → Int
+  | none => -1
+  | some k => k
+
+/-- otto's normalised start index is the start of §15.4.4.14 steps 5–8 (−1 = "return −1") -/
+theorem indexOf_start (n : Spec.IntInf) (len : Nat) (hl0 : 0 < len) (hlen : len < 2^62) :
+    (if sat n < 0 then (if sat n + (len : Int) < 0 then 0 else sat n + (len : Int))
+      else if sat n ≥ (len : Int) then -1 else sat n)
+    = startVal (Spec.indexOfStart n len) := by
+  cases n with
+  | pinf => simp only [sat, maxInt64, Spec.indexOfStart, startVal]; repeat' (first | omega | split)
+  | ninf => simp only [sat, minInt64, Spec.indexOfStart, startVal]; repeat' (first | omega | split)
+  | fin i =>
+    simp only [sat, maxInt64, minInt64, Spec.indexOfStart]
+    by_cases h1 : i ≥ (len : Int)
+    · simp only [h1, if_true, startVal]; repeat' (first | omega | split)
+    · by_cases h2 : i ≥ 0
+      · simp only [h1, h2, if_true, if_false, startVal]; repeat' (first | omega | split)
+      · by_cases h3 : (len : Int) + i < 0
+        · simp only [h1, h2, h3, if_true, if_false, startVal]; repeat' (first | omega | split)
+        · simp only [h1, h2, h3, if_false, startVal]; repeat' (first | omega | split)
+
+theorem indexOfStart_lt (n : Spec.IntInf) (len k : Nat) (h : Spec.indexOfStart n len = some k) (hl0 : 0 < len) : k < len := by
+  cases n with
+  | pinf => simp [Spec.indexOfStart] at h
+  | ninf => simp [Spec.indexOfStart] at h; omega
+  | fin i =>
+    simp only [Spec.indexOfStart] at h
+    by_cases h1 : i ≥ (len : Int)
+    · simp [h1] at h
+    · by_cases h2 : i ≥ 0
+      · simp only [h1, h2, if_true, if_false] at h; injection h with h; omega
+      · by_cases h3 : (len : Int) + i < 0
+        · simp only [h1, h2, h3, if_true, if_false] at h; injection h with h; omega
+        · simp only [h1, h2, h3, if_false] at h; injection h with h; omega
+
+theorem indexOf_refines (O : Ops σ) (E : Env) (args : List Val) (s : σ)
+    (hargs : ∀ a ∈ args, WFv a) (hlen : O.len s < 2^62) :
+    indexOf O E args s = Spec.indexOf O E args s := by
+  simp only [indexOf, Spec.indexOf]
+  by_cases h0 : O.len s = 0
+  · simp [h0]
+  · have hpos : ((O.len s : Nat) : Int) > 0 := by omega
+    simp only [hpos, if_true, h0, if_false]
+    have hn : (if args.length > 1 then toI64 E (argAt args 1) else 0)
+        = sat (if args.length > 1 then Spec.toInteger E (argAt args 1) else .fin 0) := by
+      split
+      · exact toI64_sat E _ (argAt_wf args hargs 1)
+      · simp [sat, maxInt64, minInt64]
+    rw [hn]
+    generalize (if args.length > 1 then Spec.toInteger E (argAt args 1) else Spec.IntInf.fin 0) = n
+    rw [indexOf_start n (O.len s) (by omega) hlen]
+    cases hst : Spec.indexOfStart n (O.len s) with
+    | none => simp [startVal]
+    | some k =>
+      have hk := indexOfStart_lt n (O.len s) k hst (by omega)
+      have h1 : ((k : Nat) : Int) ≥ 0 ∧ ((k : Nat) : Int) < ((O.len s : Nat) : Int) := by omega
+      have h2 : (((O.len s : Nat) : Int) - (k : Int)).toNat = O.len s - k := by omega
+      simp only [startVal, h1, and_self, if_true, h2, Int.toNat_natCast, strictEquals_eq]
+      cases List.find? _ (List.range (O.len s - k)) with
+      | none => rfl
+      | some j => simp
+
+/-- the number of positions otto's lastIndexOf examines, as a function of the (negative-adjusted) fromIndex -/
+def lastCount (i' : Int) (len : Nat) : Nat :=
+  if i' > (len : Int) then len else if 0 > i' then 0 else (i' + 1).toNat
+
+theorem lastIndexOf_count (n : Spec.IntInf) (len : Nat) (hlen : len < 2^62) :
+    lastCount (if 0 > sat n then sat n + (len : Int) else sat n) len
+      = if (if 0 > sat n then sat n + (len : Int) else sat n) = (len : Int) then len + 1
+        else Spec.lastIndexOfCount n len := by
+  cases n with
+  | pinf =>
+    have h1 : ¬ ((0:Int) > 2^63 - 1) := by omega
+    simp only [sat, maxInt64, Spec.lastIndexOfCount, lastCount, h1, if_false]; repeat' (first | omega | split)
+  | ninf =>
+    have h1 : (0:Int) > -(2^63) := by omega
+    simp only [sat, minInt64, Spec.lastIndexOfCount, lastCount, h1, if_true]; repeat' (first | omega | split)
+  | fin i =>
+    simp only [sat, maxInt64, minInt64, Spec.lastIndexOfCount, lastCount]
+    by_cases h1 : i ≥ 0
+    · by_cases h2 : i < (len : Int) - 1
+      · simp only [h1, h2, if_true]; repeat' (first | omega | split)
+      · simp only [h1, h2, if_true, if_false]; repeat' (first | omega | split)
+    · simp only [h1, if_false]; repeat' (first | omega | split)
+
+/-- lastIndexOf = §15.4.4.15 unless fromIndex (after the negative adjustment) equals length and the receiver has
+    a property at index length (`lastIndexOf_from_length`) -/
+theorem lastIndexOf_refines (O : Ops σ) (E : Env) (args : List Val) (s : σ)
+    (hargs : ∀ a ∈ args, WFv a) (hlen : O.len s < 2^62)
+    (hreg : args.length > 1 →
+      (if 0 > toI64 E (argAt args 1) then toI64 E (argAt args 1) + (O.len s : Int) else toI64 E (argAt args 1)) = (O.len s : Int) →
+      O.has s (O.len s) = false) :
+    lastIndexOf O E args s = Spec.lastIndexOf O E args s := by
+  simp only [lastIndexOf, Spec.lastIndexOf]
+  have hn : (if args.length > 1 then toI64 E (argAt args 1) else ((O.len s : Nat) : Int) - 1)
+      = sat (if args.length > 1 then Spec.toInteger E (argAt args 1) else .fin (((O.len s : Nat) : Int) - 1)) := by
+    split
+    · exact toI64_sat E _ (argAt_wf args hargs 1)
+    · simp only [sat, maxInt64, minInt64]; repeat' (first | omega | split)
+  have hreg' : (if 0 > sat (if args.length > 1 then Spec.toInteger E (argAt args 1) else .fin (((O.len s : Nat) : Int) - 1))
+        then sat (if args.length > 1 then Spec.toInteger E (argAt args 1) else .fin (((O.len s : Nat) : Int) - 1)) + (O.len s : Int)
+        else sat (if args.length > 1 then Spec.toInteger E (argAt args 1) else .fin (((O.len s : Nat) : Int) - 1))) = (O.len s : Int)
+      → O.has s (O.len s) = false := by
+    by_cases ha : args.length > 1
+    · simp only [ha, if_true, ← toI64_sat E _ (argAt_wf args hargs 1)]
+      exact hreg ha
+    · simp only [ha, if_false, sat, maxInt64, minInt64]
+      intro h
+      exfalso
+      repeat' (first | omega | split at h)
+  rw [hn]
+  generalize (if args.length > 1 then Spec.toInteger E (argAt args 1) else Spec.IntInf.fin (((O.len s : Nat) : Int) - 1)) = n at hreg'
+  have hc := lastIndexOf_count n (O.len s) hlen
+  generalize hi : (if 0 > sat n then sat n + (O.len s : Int) else sat n) = i' at hc hreg'
+  -- otto's three-way branch is one downward search over `lastCount i' len` positions
+  have hmodel : ∀ P : Nat → Bool,
+      (if i' > ((O.len s : Nat) : Int) then
+          (Res.ok (indexRet (searchDown P ((((O.len s : Nat) : Int) - 1) + 1).toNat)) s : Res σ Ret)
+        else if 0 > i' then .ok (indexRet none) s
+        else .ok (indexRet (searchDown P (i' + 1).toNat)) s)
+      = .ok (indexRet (searchDown P (lastCount i' (O.len s)))) s := by
+    intro P
+    simp only [lastCount]
+    by_cases h1 : i' > ((O.len s : Nat) : Int)
+    · have : ((((O.len s : Nat) : Int) - 1) + 1).toNat = O.len s := by omega
+      simp only [h1, if_true, this]
+    · by_cases h2 : 0 > i'
+      · simp only [h1, h2, if_true, if_false, searchDown]
+      · simp only [h1, h2, if_false]
+  rw [hmodel, hc]
+  simp only [strictEquals_eq]
+  have hz : Spec.lastIndexOfCount n 0 = 0 := by
+    cases n <;> simp only [Spec.lastIndexOfCount] <;> repeat' (first | rfl | omega | split)
+  by_cases he : i' = ((O.len s : Nat) : Int)
+  · have hh := hreg' he
+    simp only [he, if_true, searchDown, hh, Bool.false_and, Bool.false_eq_true, if_false]
+    by_cases h0 : O.len s = 0
+    · simp only [h0, if_true, searchDown]; rfl
+    · simp only [h0, if_false]
+      have : Spec.lastIndexOfCount n (O.len s) = O.len s := by
+        rw [← hi] at he
+        cases n with
+        | pinf => simp only [sat, maxInt64] at he; exfalso; repeat' (first | omega | split at he)
+        | ninf => simp only [sat, minInt64] at he; exfalso; repeat' (first | omega | split at he)
+        | fin i =>
+          simp only [sat, maxInt64, minInt64] at he
+          simp only [Spec.lastIndexOfCount]
+          repeat' (first | omega | split at he | split)
+      rw [this]
+  · simp only [he, if_false]
+    by_cases h0 : O.len s = 0
+    · simp only [h0, if_true, hz, searchDown]; rfl
+    · simp only [h0, if_false]
+
+
+/-! ## reverse -/
+
+theorem forUp_congr (b1 b2 : Nat → M σ Unit) (lo n : Nat) (h : ∀ i, lo ≤ i → i < lo + n → b1 i = b2 i) :
+    forUp b1 lo n = forUp b2 lo n := by
+  induction n generalizing lo with
+  | zero => rfl
+  | succ n ih =>
+    simp only [forUp]
+    rw [h lo (Nat.le_refl _) (by omega), ih (lo + 1) (fun i h1 h2 => h i (by omega) (by omega))]
+
+/-- reverse = §15.4.4.8 for every receiver on which deleting one index and putting another commute (no
+    [[Put]]/[[Delete]] can fail half-way: the complement is `reverse_delete_before_put`) -/
+theorem reverse_refines (O : Ops σ)
+    (hcomm : ∀ (lo hi : Nat) (v : Val), lo ≠ hi → (do O.del hi; O.put lo v : M σ Unit) = (do O.put lo v; O.del hi)) :
+    reverse O = Spec.reverse O := by
+  funext s
+  simp only [reverse, Spec.reverse]
+  have : forUp (fun lower => reverseStep O lower (O.len s - lower - 1)) 0 (O.len s / 2)
+       = forUp (fun lower => Spec.reverseStep O lower (O.len s - lower - 1)) 0 (O.len s / 2) := by
+    apply forUp_congr
+    intro i _ hi
+    have hne : i ≠ O.len s - i - 1 := by omega
+    funext s'
+    simp only [reverseStep, Spec.reverseStep]
+    cases h1 : O.has s' i <;> cases h2 : O.has s' (O.len s - i - 1) <;> simp
+    exact congrFun (hcomm i (O.len s - i - 1) (O.get s' (O.len s - i - 1)) hne) s'
+  rw [this]
+
+/-- non-vacuity: an array-like whose [[Put]] and [[Delete]] always succeed -/
+def tOps : Ops (List (Option Val)) where
+  len := fun s => s.length
+  has := fun s k => (s.getD k none).isSome
+  get := fun s k => (s.getD k none).getD .undef
+  put := fun k v s => .ok () (s.set k (some v))
+  del := fun k s => .ok () (s.set k none)
+  putLen := fun _ s => .ok () s
+  call := fun _ s => .ok .undef s
+  isArr := fun _ => true
+
+example : reverse tOps = Spec.reverse tOps := by
+  apply reverse_refines
+  intro lo hi v hne
+  funext s
+  simp only [tOps, bind, M.bind]
+  congr 1
+  exact List.set_comm _ _ hne.symm
 
 
 /-! ## Witnesses: each deviation region is inhabited (kernel-checked by `decide`) -/
